@@ -38,6 +38,14 @@ template <class T> struct throw_acc {
   data_handle_type offset(data_handle_type p, size_t i) const noexcept { return p + i; }
 };
 
+// a user accessor whose reference is a prvalue (like linalg's scaled accessor): mdspan::reference must be taken from it
+template <class T> struct value_acc {
+  using offset_policy = value_acc; using element_type = T; using reference = std::remove_cv_t<T>; using data_handle_type = const T *;
+  explicit constexpr value_acc(int) noexcept {}
+  constexpr reference access(data_handle_type p, size_t i) const noexcept { return p[i]; }
+  constexpr data_handle_type offset(data_handle_type p, size_t i) const noexcept { return p + i; }
+};
+
 template <class... Ts> struct voider { using type = void; };
 // m[args...] (multidimensional subscript) or m(args...)
 template <class, class M, class... Args> struct can_index_impl : std::false_type {};
